@@ -8,7 +8,7 @@ pub const AVG_SCALE: f64 = 2520.0;
 macro_rules! builders {
   ($m:ident, $obs:ty, $subject:ty, $subscriber:ident, $boxobs:ty,
    $merge:ident, $zip:ident, $combine_latest:ident, $with_latest_from:ident,
-   $take_until:ident, $skip_until:ident, $sample:ident) => {
+   $take_until:ident, $skip_until:ident, $sample:ident, $flat_map:ident, $concat_map:ident) => {
 pub mod $m {
 use crate::probe::Probe;
 use crate::sexp::Sexp;
@@ -85,6 +85,25 @@ pub fn apply_uop(o: Obs, u: &Sexp) -> Obs {
       o.filter_map(move |v| f.opt(&v)).box_it()
     }
     "tap" => o.tap(|_| {}).box_it(),
+    // intermediates that hand every item on unchanged through a higher-order stage (C16: the back channel
+    // has to pass through them); in the model they are identity nodes
+    // (merge_all's operator is not Clone: `defer` - which adds no observer of its own - makes the stage cloneable)
+    "flat_map_of" => observable::defer(move || {
+      o.clone().$flat_map(|v: Val| observable::of(v).on_error_map(absurd as fn(Infallible) -> i64))
+    })
+    .box_it(),
+    "concat_map_of" => observable::defer(move || {
+      o.clone().$concat_map(|v: Val| observable::of(v).on_error_map(absurd as fn(Infallible) -> i64))
+    })
+    .box_it(),
+    "group_flat" => {
+      let f = Fn1::parse(&a[0]);
+      observable::defer(move || {
+        let f = f.clone();
+        o.clone().group_by::<_, _, $subject>(move |v: &Val| f.apply(v)).$flat_map(|g| g)
+      })
+      .box_it()
+    }
     "on_error_map" => {
       let k = a[0].int();
       o.on_error_map(move |e: i64| e + k).box_it()
@@ -291,8 +310,8 @@ pub fn run_op2(body: &[Sexp]) -> String {
 
 builders!(local, rxrust::ops::box_it::CloneableBoxOp<'static, Val, i64>, Subject<'static, Val, i64>,
   Subscriber, rxrust::observer::BoxObserver<'static, Val, i64>,
-  merge, zip, combine_latest, with_latest_from, take_until, skip_until, sample);
+  merge, zip, combine_latest, with_latest_from, take_until, skip_until, sample, flat_map, concat_map);
 builders!(threads, rxrust::ops::box_it::CloneableBoxOpThreads<Val, i64>, SubjectThreads<Val, i64>,
   SubscriberThreads, rxrust::observer::BoxObserverThreads<Val, i64>,
   merge_threads, zip_threads, combine_latest_threads, with_latest_from_threads, take_until_threads,
-  skip_until_threads, sample_threads);
+  skip_until_threads, sample_threads, flat_map_threads, concat_map_threads);
